@@ -302,3 +302,41 @@ RECOVERIES = [
     lambda a: ('recretry', a, ('any',), ('just', [B])),
 ]
 DECORATIONS = [lambda a: ('label', 1, False, a), lambda a: ('label', 2, True, a), lambda a: ('maperr', 3, a)]
+
+
+# ---------------------------------------------------------------------------------------------
+# context / configuration
+
+CTX_PROVIDERS = [
+    lambda a: ('withctx', ('vtoks', [A]), a),
+    lambda a: ('iwctx', ('just', [A]), a),
+    lambda a: ('twctx', ('oneof', [A, B]), a),
+    lambda a: ('mapctx', ('ctag', 4), a),
+    lambda a: ('iwctx', ('collect', 'string', ('rep', ('oneof', [A, B]), 0, 2)), a),
+]
+
+
+def ctx_family():
+    """length-prefixed / delimiter-echo / nested providers"""
+    a = ('just', [A])
+    digit = ('map', 'snd', ('then', ('empty',), ('or', ('to', ('vnat', 2), ('just', [50])), ('to', ('vnat', 3), ('just', [51])))))
+    out = []
+    for cons in [lambda it: ('collect', 'vec', it), lambda it: ('collect', 'count', it), lambda it: ('iterp', it),
+                 lambda it: ('foldl', 'fpair', ('empty',), it)]:
+        for cfn in ('exactlyctx', 'atleastctx', 'atmostctx'):
+            out.append(('iwctx', digit, cons(('cfgrep', cfn, ('rep', ('oneof', [A, B]), 0, None)))))
+            out.append(('twctx', digit, cons(('cfgrep', cfn, ('rep', a, 1, 3)))))
+        out.append(('iwctx', digit, cons(('trycfgrep', 6, ('rep', a, 0, None)))))
+        out.append(('iwctx', a, cons(('trycfgrep', 6, ('rep', a, 0, None)))))
+    # delimiter echo: the opening run of a/b must be repeated at the end
+    opener = ('collect', 'string', ('rep', ('oneof', [A, B]), 1, 2))
+    out.append(('twctx', opener, ('then', ('iterp', ('rep', ('just', [50]), 0, None)), ('cfgjust', 'seqctx', [B]))))
+    out.append(('iwctx', opener, ('mwctx', ('cfgjust', 'seqctx', [B]))))
+    out.append(('iwctx', opener, ('collect', 'vec', ('rep', ('mwctx', ('cfgjust', 'seqctx', [A])), 0, None))))
+    out.append(('iwctx', opener, ('or', ('then', ('just', [50]), ('cfgjust', 'seqctx', [A])), ('mwctx', ('cfgjust', 'keep', [51])))))
+    # nested providers: inner overrides, outer visible again afterwards
+    out.append(('iwctx', opener, ('then', ('iwctx', ('just', [50]), ('mwctx', ('empty',))), ('mwctx', ('cfgjust', 'seqctx', [A])))))
+    out.append(('withctx', ('vtoks', [B]), ('then', ('ornot', ('iwctx', ('just', [A]), ('mwctx', ('just', [51])))), ('mwctx', ('cfgjust', 'seqctx', [A])))))
+    out.append(('iwctx', opener, ('mapctx', 'lenof', ('collect', 'vec', ('cfgrep', 'exactlyctx', ('rep', ('just', [50]), 0, None))))))
+    out.append(('iwctx', opener, ('mapctx', ('ctag', 3), ('mwctx', ('any',)))))
+    return out
